@@ -99,19 +99,25 @@ def symbols_cached(e) -> frozenset:
     return sy
 
 
-def coi_slice(axioms: List[Any], ob: Obligation):
+def coi_slice(axioms: List[Any], ob: Obligation, max_hops: int = 0):
     """Cone of influence: keep only hypotheses (and axioms) that share an uninterpreted symbol,
-    transitively, with the goal.  Dropping hypotheses is sound for an `unsat` verdict."""
-    want = set(symbols(ob.goal))
+    transitively, with the goal.  Dropping hypotheses is sound for an `unsat` verdict.
+    `max_hops` > 0 stops the closure after that many rounds (a still smaller, equally sound slice:
+    most goals follow from the facts about the symbols they mention and their immediate neighbours,
+    and a small query is immune to the instantiation noise of a large one)."""
+    want = set(symbols_cached(ob.goal))
     items = [(p, symbols_cached(p)) for p in ob.pc] + [(a, symbols_cached(a)) for a in axioms]
     keep = [False] * len(items)
     # symbols that occur nearly everywhere connect everything: do not propagate through them
     hub = {"root", "null_Node", "self"}
+    hops = 0
     changed = True
-    while changed:
+    while changed and (max_hops <= 0 or hops < max_hops):
         changed = False
+        hops += 1
+        frontier = set(want)
         for k, (p, sy) in enumerate(items):
-            if not keep[k] and (sy - hub) & want:
+            if not keep[k] and (sy - hub) & frontier:
                 keep[k] = True
                 new = (sy - hub) - want
                 if new:
@@ -245,6 +251,23 @@ def discharge(axioms: List[Any], obs: List[Obligation], timeout_s: int = 30,
                     coi[ob.oid] = t
             except Exception:
                 pass
+    # round 0a: bounded-hop slices (2, then 3 hops), both solver modes, short budget
+    for hops in (2, 3):
+        jobs = []
+        for ob in obs:
+            if not ob.expect_fail and ob.status != "discharged":
+                try:
+                    t, kept, total = coi_slice(axioms, ob, max_hops=hops)
+                    jobs.append((ob.oid, t, 3000, False))
+                    jobs.append((ob.oid, t, 3000, "noeq"))
+                except Exception:
+                    pass
+        for oid, res, dt, model, reason in p.imap_unordered(_worker, jobs, chunksize=4):
+            ob = byid[oid]
+            ob.time_s += dt
+            if res == "unsat" and ob.status != "discharged":
+                ob.status, ob.backend = "discharged", f"z3/{hops}-hop-slice"
+    coi = {k_: v_ for k_, v_ in coi.items() if byid[k_].status != "discharged"}
     if coi:
         jobs = [(oid, t, 6000, False) for oid, t in coi.items()]
         for oid, res, dt, model, reason in p.imap_unordered(_worker, jobs, chunksize=1):
